@@ -44,6 +44,9 @@ def generate(rng, n, tier, stats):
         kind = 'i' if pts and all(float(p).is_integer() for p in pts) and rng.random() < 0.5 else 'f'
         if kind == 'i': pts = [int(p) for p in pts]
         left = rng.choice([None, None, -99.0]); right = rng.choice([None, None, 77.5])
+        if rng.random() < 0.12: left = 'edge'
+        if rng.random() < 0.12: right = 'edge'
+        stats['fills'][('edge' if left == 'edge' else 'nan' if left is None else 'number') + '/' + ('edge' if right == 'edge' else 'nan' if right is None else 'number')] += 1
         if rng.random() < 0.3:
             # interp_like: the other object shares 0..nd dimensions with the array (in its own order) and has further ones
             k = rng.randint(0, nd); sh = rng.sample(range(nd), k)
@@ -56,7 +59,7 @@ def generate(rng, n, tier, stats):
             if rng.random() < 0.5: others.append(['other%d' % rng.randrange(9), 'i', [1, 2]])
             rng.shuffle(others)
             stats['interp_like_shared'][k] += 1
-            cases.append({'ins': [a], 'ops': [['interp_like', others, left, right, rng.random() < 0.3]]})
+            cases.append({'ins': [a], 'ops': [['interp_like', others, None if left == 'edge' else left, None if right == 'edge' else right, rng.random() < 0.3]]})
             continue
         op = ['interp', pts, kind, r, left, right]
         if labs == sorted(labs) and rng.random() < 0.5:
@@ -110,7 +113,8 @@ def oracle(case, res):
     v = np.asarray(arr.values, dtype=float)
     def f(fib):
         return np.interp(np.array(pts, dtype=float), x[order], fib[order],
-                         left=np.nan if left is None else left, right=np.nan if right is None else right)
+                         left=np.nan if left is None else None if left == 'edge' else left,
+                         right=np.nan if right is None else None if right == 'edge' else right)
     want = np.apply_along_axis(f, p, v) if len(pts) else v.take([], axis=p)
     w = want.ravel().tolist()
     if len(w) != len(rr['flat']): return 'shape differs'
@@ -135,8 +139,8 @@ def oracle(case, res):
                 ds = D.Dataset(); ds['v'] = arr
                 if arr.ndim > 1: ds['w'] = arr.take({a['dims'][p]: 0}, indexing='position')
                 kw = {}
-                if left is not None: kw['left'] = left
-                if right is not None: kw['right'] = right
+                if left is not None: kw['left'] = None if left == 'edge' else left
+                if right is not None: kw['right'] = None if right == 'edge' else right
                 rds = ds.interp_axis(ops.labs_np(pts, kind), axis=a['dims'][p], **kw)
                 gv = arr_json(rds['v'])
     except Exception as e:
